@@ -1169,6 +1169,15 @@ class Executor:
     def str_eq(self, x, y):
         if len(x.b) != len(y.b):
             return False
+        # strings that are digests (>= 16 bytes) of concretely different contents differ: the collision-resistance
+        # axiom of the hash model, applied syntactically (saves a solver query per pair of map keys)
+        dg = self.pstate.get('digest_of')
+        if dg and len(x.b) >= 16 and not isinstance(x.b[0], int) and not isinstance(y.b[0], int):
+            c1, c2 = dg.get(x.b[0].get_id()), dg.get(y.b[0].get_id())
+            if c1 is not None and c2 is not None:
+                from . import stubs_hash
+                if stubs_hash._content_eq(c1, c2) is False:
+                    return False
         r = True
         for a, b in zip(x.b, y.b):
             r = band(r, int_binop('==', a, b, 8, False))
